@@ -69,6 +69,8 @@ fn montgomery(x: &BigUint, y: &BigUint, m: &BigUint, k: BigDigit, n: usize) -> B
         let cy = cx.wrapping_add(c3);
         z.data[n + i] = cy;
         if cx < c2 || cy < c3 {
+            #[cfg(num_bigint_verif)]
+            crate::verif_probe::hit(29);
             c = 1;
         } else {
             c = 0;
@@ -215,8 +217,12 @@ pub(super) fn monty_modpow(x: &BigUint, y: &BigUint, m: &BigUint) -> BigUint {
         // so do that unconditionally, but double-check,
         // in case our beliefs are wrong.
         // The div is not expected to be reached.
+        #[cfg(num_bigint_verif)]
+        crate::verif_probe::hit(30);
         zz -= m;
         if zz >= *m {
+            #[cfg(num_bigint_verif)]
+            crate::verif_probe::hit(31);
             zz %= m;
         }
     }
